@@ -141,6 +141,34 @@ def run(chk, R, tier, seed):
                                 dict(obs=obs, steps=steps), "pair")
                 cases.append(Case(steps, judge))
 
+    # -- products that cancel completely: frequency x duration in every
+    # pair of units, both ways round, as quantities and quantity x unit
+    for f in SI.units_of("Frequency"):
+        for d in SI.units_of("Duration"):
+            steps = [{"k": "fd", "e": OP("*", Q(["i", 2], f), Q(["i", 3], d))},
+                     {"k": "df", "e": OP("*", Q(["i", 3], d), Q(["i", 2], f))},
+                     {"k": "fu", "e": OP("*", Q(["i", 2], f), U(d))}]
+
+            def judge(obs, rec, case, f=f, d=d, steps=steps):
+                if not obs:
+                    chk.inconclusive_because("cancelling product not "
+                                             "observed")
+                    return
+                chk.case(("cancel", f, d))
+                chk.count("products that cancel to a number")
+                k = SI.scale(f) * SI.scale(d)
+                for key, want in (("fd", 6 * k), ("df", 6 * k),
+                                  ("fu", 2 * k)):
+                    r = obs.get(key, {})
+                    if r.get("k") != "N" or val(r) != want or \
+                            r.get("at") == "float":
+                        chk.violation(
+                            "%s with %s, %s: got %s, the reference scales "
+                            "give %s" % (key, f, d, brief(r), want),
+                            dict(obs=obs, steps=steps), "compound")
+            cases.append(Case(steps, judge))
+    chk.require("products that cancel to a number", 20)
+
     # -- compound units
     compound = dict(SI.COMPOUND)
     compound["N"] = [("kg", 1), ("m/s²", 1)]
